@@ -530,3 +530,186 @@ def sentence_cases(rnd, n):
         except RecursionError:
             pass
     return out
+
+
+# ---------------------------------------------------------------- operator trees (C07): the property's own enumeration
+# precedence levels of the GoogleSQL table (smaller = tighter); written from the documentation, not from parser.go
+OP_LEVEL = {"*": 3, "/": 3, "||": 3, "+": 4, "-": 4, "<<": 5, ">>": 5, "&": 6, "^": 7, "|": 8,
+            "=": 9, "!=": 9, "<>": 9, "<": 9, "<=": 9, ">": 9, ">=": 9, "LIKE": 9, "NOT LIKE": 9, "AND": 11, "OR": 12}
+BIN_OPS = list(OP_LEVEL)
+PRE_OPS = ["NOT", "-", "+", "~"]
+LEAVES = ["a", "b", "c", "x.y", "1", "2.5", '"s"', "@p", "NULL", "TRUE"]
+
+
+def t_level(t):
+    k = t[0]
+    if k == "leaf" or k == "paren":
+        return 0
+    if k == "post":
+        return 1
+    if k == "pre":
+        return 10 if t[1] == "NOT" else 2
+    if k == "bin":
+        return OP_LEVEL[t[1]]
+    return 9          # is / between / in: the comparison family
+
+
+def canon_op(op):
+    return "!=" if op == "<>" else op
+
+
+def t_shape(t, full=False):
+    """the grouping the table prescribes for t_spell(t, full), in the notation of the harness' expr-shape command: a parenthesis
+    written in the spelling survives as a ParenExpr around exactly that operand"""
+    def sub(c, maxlevel):
+        s = t_shape(c, full)
+        if full and c[0] != "leaf":
+            return "(paren %s)" % s
+        return "(paren %s)" % s if t_level(c) > maxlevel else s
+    k = t[0]
+    if k == "leaf":
+        return t[1]
+    if k == "paren":
+        return "(paren %s)" % t_shape(t[1], full)
+    if k == "post":
+        base = sub(t[2], 1)
+        if t[1] == ".":
+            if "(" not in base and " " not in base and base[:1].isalpha():
+                return base + ".f"                       # Ident.f and Path.f are Paths
+            return "(. %s f)" % base
+        return "([] %s 0)" % base
+    if k == "pre":
+        return "(%s %s)" % (t[1], sub(t[2], 10 if t[1] == "NOT" else 2))
+    if k == "bin":
+        L = OP_LEVEL[t[1]]
+        if L == 9:
+            return "(%s %s %s)" % (canon_op(t[1]).replace(" ", "_"), sub(t[2], 8), sub(t[3], 8))
+        right = 10 if L == 11 else L - 1
+        return "(%s %s %s)" % (canon_op(t[1]).replace(" ", "_"), sub(t[2], L), sub(t[3], right))
+    if k == "is":
+        return "(is%s_%s %s)" % ("_not" if t[1] else "", t[2], sub(t[3], 8))
+    if k == "between":
+        return "(%sbetween %s %s %s)" % ("not_" if t[1] else "", sub(t[2], 8), sub(t[3], 8), sub(t[4], 8))
+    if k == "in":
+        return "(%sin %s 1 2)" % ("not_" if t[1] else "", sub(t[2], 8))
+    raise ValueError(k)
+
+
+def t_spell(t, full=False):
+    """minimal parentheses by the table (full: a parenthesis around every operand; then the expected shape has paren nodes)"""
+    def sub(c, maxlevel):
+        s = t_spell(c, full)
+        if full and c[0] != "leaf":
+            return "(" + s + ")"
+        return "(" + s + ")" if t_level(c) > maxlevel else s
+    k = t[0]
+    if k == "leaf":
+        return t[1]
+    if k == "paren":
+        return "(" + t_spell(t[1], full) + ")"
+    if k == "post":
+        base = sub(t[2], 1)
+        return base + (".f" if t[1] == "." else "[0]")
+    if k == "pre":
+        if t[1] == "NOT":
+            return "NOT " + sub(t[2], 10)
+        x = sub(t[2], 2)
+        return t[1] + (" " if x[:1] in "+-" else "") + x
+    if k == "bin":
+        L = OP_LEVEL[t[1]]
+        if L == 9:
+            return "%s %s %s" % (sub(t[2], 8), t[1], sub(t[3], 8))
+        right = 10 if L == 11 else L - 1          # AND's right operand is parsed at the NOT level
+        return "%s %s %s" % (sub(t[2], L), t[1], sub(t[3], right))
+    if k == "is":
+        return "%s IS %s%s" % (sub(t[3], 8), "NOT " if t[1] else "", t[2])
+    if k == "between":
+        return "%s %sBETWEEN %s AND %s" % (sub(t[2], 8), "NOT " if t[1] else "", sub(t[3], 8), sub(t[4], 8))
+    if k == "in":
+        return "%s %sIN (1, 2)" % (sub(t[2], 8), "NOT " if t[1] else "")
+    raise ValueError(k)
+
+
+def t_valid(t):
+    """trees the parser can return (canonical): no sign directly over an unsigned number (it is folded into the literal);
+    a postfix directly over a leaf only when the leaf is a name (1.f is a float, keywords are avoided)"""
+    k = t[0]
+    if k == "leaf":
+        return True
+    if k == "pre" and t[1] in "+-" and t[2][0] == "leaf" and t[2][1][:1].isdigit():
+        return False
+    if k == "post" and t[2][0] == "leaf":
+        n = t[2][1]
+        if not (n[:1].isalpha() and n not in ("NULL", "TRUE", "FALSE")):
+            return False
+    return all(t_valid(c) for c in t[1:] if isinstance(c, tuple))
+
+
+def op_trees(n, leaves):
+    """all trees with exactly n operator occurrences; leaves are taken round-robin from [leaves]"""
+    if n == 0:
+        return [("leaf", None)]
+    out = []
+    for sub in op_trees(n - 1, leaves):
+        for op in PRE_OPS:
+            out.append(("pre", op, sub))
+        out.append(("post", ".", sub))
+        out.append(("post", "[]", sub))
+        out.append(("is", False, "NULL", sub))
+        out.append(("is", True, "TRUE", sub))
+        out.append(("in", False, sub))
+    for k in range(n):
+        for l in op_trees(k, leaves):
+            for r in op_trees(n - 1 - k, leaves):
+                for op in BIN_OPS:
+                    out.append(("bin", op, l, r))
+    if n >= 1:
+        for k in range(n):
+            for l in op_trees(k, leaves):
+                for r in op_trees(n - 1 - k, leaves):
+                    out.append(("between", k % 2 == 1, l, r, ("leaf", None)))
+    return out
+
+
+def label_leaves(t, names, counter):
+    if t[0] == "leaf":
+        counter[0] += 1
+        return ("leaf", names[counter[0] % len(names)])
+    return tuple(label_leaves(c, names, counter) if isinstance(c, tuple) else c for c in t)
+
+
+def random_op_tree(rnd, depth):
+    if depth <= 0 or rnd.random() < 0.25:
+        return ("leaf", rnd.choice(LEAVES))
+    k = rnd.randrange(10)
+    if k < 5:
+        return ("bin", rnd.choice(BIN_OPS), random_op_tree(rnd, depth - 1), random_op_tree(rnd, depth - 1))
+    if k == 5:
+        return ("pre", rnd.choice(PRE_OPS), random_op_tree(rnd, depth - 1))
+    if k == 6:
+        return ("post", rnd.choice([".", "[]"]), random_op_tree(rnd, depth - 1))
+    if k == 7:
+        return ("is", rnd.random() < 0.5, rnd.choice(["NULL", "TRUE", "FALSE"]), random_op_tree(rnd, depth - 1))
+    if k == 8:
+        return ("between", rnd.random() < 0.5, random_op_tree(rnd, depth - 1), random_op_tree(rnd, depth - 1), random_op_tree(rnd, depth - 1))
+    return ("in", rnd.random() < 0.5, random_op_tree(rnd, depth - 1))
+
+
+def precedence_cases(rnd, max_ops, n_random):
+    """(input bytes, expected shape) for every tree with <= max_ops operators in minimal and full spelling + random deeper trees"""
+    out = []
+    names = ["a", "b", "c", "d", "e"]
+    for n in range(0, max_ops + 1):
+        for t in op_trees(n, names):
+            t = label_leaves(t, names, [-1])
+            if not t_valid(t):
+                continue
+            out.append((t_spell(t).encode(), t_shape(t)))
+            if n > 0:
+                out.append((t_spell(t, True).encode(), t_shape(t, True)))
+    for _ in range(n_random):
+        t = random_op_tree(rnd, rnd.randrange(2, 6))
+        if not t_valid(t):
+            continue
+        out.append((t_spell(t).encode(), t_shape(t)))
+    return out
